@@ -65,6 +65,9 @@ func (se *SpecEnv) evalTerm(e *SpecExpr) *Term {
 }
 
 func (se *SpecEnv) boolOf(v Value, src string) *Term {
+	if p, isP := v.(*PtrV); isP && p.Obj != nil {
+		v = se.rvalue(se.deref(p)) // the lvalue of a boolean cell (a field): its value
+	}
 	t, ok := v.(*Term)
 	if !ok || t.S != SBool {
 		unsup("spec %q: expected boolean", src)
@@ -112,7 +115,7 @@ func (se *SpecEnv) eval(e ast.Expr) Value {
 		}
 		switch x.Op {
 		case token.NOT:
-			return F.Not(a.(*Term))
+			return F.Not(se.boolOf(a, "!"))
 		case token.SUB:
 			return F.Neg(a.(*Term))
 		case token.AND:
@@ -122,14 +125,14 @@ func (se *SpecEnv) eval(e ast.Expr) Value {
 		return se.deref(se.eval(x.X))
 	case *ast.BinaryExpr:
 		if x.Op == token.LAND {
-			l := se.eval(x.X).(*Term)
+			l := se.boolOf(se.eval(x.X), "&&")
 			if l.IsFalse() {
 				return l // the right operand need not be well-formed when the left one is false (called(F) && ... resultof_F ...)
 			}
-			return F.And(l, se.eval(x.Y).(*Term))
+			return F.And(l, se.boolOf(se.eval(x.Y), "&&"))
 		}
 		if x.Op == token.LOR {
-			return F.Or(se.eval(x.X).(*Term), se.eval(x.Y).(*Term))
+			return F.Or(se.boolOf(se.eval(x.X), "||"), se.boolOf(se.eval(x.Y), "||"))
 		}
 		a, b := se.rvalue(se.eval(x.X)), se.rvalue(se.eval(x.Y))
 		// a conditional lvalue compared with a scalar: read each alternative (nil alternatives yield an
@@ -786,6 +789,24 @@ func (se *SpecEnv) callSpec(c *ast.CallExpr) Value {
 		unsup("noescape() of %T", arg(0))
 	case "imp":
 		return F.Imp(targ(0), targ(1))
+	case "arrayof":
+		// the contents of a slice of scalars as one value (an SMT array indexed from the start of the slice): a ghost
+		// can hold it as a snapshot, at(snapshot, j) reads it back
+		av0 := se.rvalue(se.eval(c.Args[0]))
+		if p, isP := av0.(*PtrV); isP && p.Obj != nil {
+			av0 = se.rvalue(se.deref(p)) // a slice variable that lives in memory (captured by a closure)
+		}
+		sl, ok := av0.(*SliceV)
+		if !ok || sl.Obj == nil {
+			unsup("arrayof: not a slice (%T)", se.rvalue(se.eval(c.Args[0])))
+		}
+		av, ok := se.fr.v.getPath(se.fr.v.content(se.state(), sl.Obj), sl.Path).(*ArrV)
+		if !ok || !sl.Off.IsConst() || sl.Off.K.Sign() != 0 {
+			unsup("arrayof: the slice is not a whole array of scalars")
+		}
+		return av.Arr
+	case "at":
+		return F.Select(targ(0), targ(1))
 	case "b2i":
 		return F.Ite(targ(0), F.I64(1), F.I64(0))
 	case "forall", "exists":
